@@ -25,11 +25,13 @@ def ciEq (a b : Bytes) : Bool := a.map lower == b.map lower
 
 def isKwChar (b : UInt8) : Bool := isAlpha b || isDigit b || b == 95
 
-/-- KEY or KEY# at the start of `s`: returns the keyword and the rest -/
+/-- KEY or KEY# at the start of `s`: returns the keyword and the rest.
+KEY := an upper-case letter followed by letters, digits, '_' (the part before the first lower-case
+letter is the short form, hence never empty). -/
 def parseKey (s : Bytes) (optional : Bool) : Option (Kw × Bytes) :=
   let name := s.takeWhile isKwChar
   let rest := s.drop name.length
-  if name.isEmpty ∨ !(isAlpha (name.headD 0)) then none
+  if name.isEmpty ∨ !(isUpper (name.headD 0)) then none
   else
     let short := name.takeWhile (fun b => !isLower b)
     let (numeric, rest) := if rest.head? == some 35 then (true, rest.drop 1) else (false, rest)
@@ -50,13 +52,16 @@ def parseItems : Nat → Bytes → List Kw → Option (List Kw × Bytes)
       | _ => none
     | _ => some (acc.reverse, s)
 
-/-- pattern := '*'MNEMONIC '?'?  |  (':'?KEY | '[:'KEY']') (':'KEY | '[:'KEY']')* '?'? -/
+/-- pattern := '*'MNEMONIC '?'?  |  (':'?KEY | '[:'KEY']') (':'KEY | '[:'KEY']')* '?'?
+KEY := an upper-case letter followed by letters, digits, '_' (the part before the first lower-case
+letter is the short form, hence never empty); common mnemonics contain no lower-case letter. -/
 def parsePattern (p : Bytes) : Option Pat :=
   match p with
   | 42 :: rest =>
     let name := rest.takeWhile isKwChar
     let tail := rest.drop name.length
     if name.isEmpty then none
+    else if name.any isLower then none      -- the short form of a common mnemonic is the mnemonic itself
     else if tail == [] then some ⟨true, false, [⟨42 :: name, 42 :: name, false, false⟩]⟩
     else if tail == [63] then some ⟨true, true, [⟨42 :: name, 42 :: name, false, false⟩]⟩
     else none
